@@ -121,6 +121,12 @@ def run(rep: common.Report, tier: str, seed: int, replay=None) -> int:
                     # an allowed outcome of the run itself (some of the rarely-set screening parameters do not converge)
                     rep.coverage["runs_that_failed_to_converge"] = rep.coverage.get("runs_that_failed_to_converge", 0) + 1
                     continue
+                if "exactly singular" in str(e):
+                    # the run itself could not start: SuperLU met an exactly zero pivot in the (by construction singular) Neumann
+                    # Laplacian for mu at this position of the device - nothing was saved or loaded (see DESIGN 16.2)
+                    rep.coverage["runs_refused_singular_factor"] = rep.coverage.get("runs_refused_singular_factor", 0) + 1
+                    dev.translate(dx=0.0137, dy=0.0071, inplace=True)
+                    continue
                 rep.violation(f"saving / loading a solution raised {type(e).__name__}: {e}"[:200], case)
                 continue
             except Exception as e:  # noqa: BLE001
@@ -216,6 +222,9 @@ def run(rep: common.Report, tier: str, seed: int, replay=None) -> int:
                 sol.to_hdf5(newp)
                 loaded = tdgl.Solution.from_hdf5(newp)
             except Exception as e:  # noqa: BLE001
+                if isinstance(e, RuntimeError) and ("exactly singular" in str(e) or "Screening calculation failed to converge" in str(e)):
+                    rep.coverage["runs_refused_singular_factor"] = rep.coverage.get("runs_refused_singular_factor", 0) + 1
+                    continue          # the run itself did not happen; nothing to save or load
                 rep.violation(f"saving / loading a solution raised {type(e).__name__}: {e}"[:200], case)
                 continue
             if len(dyn.dt) == 0:
@@ -238,6 +247,10 @@ def run(rep: common.Report, tier: str, seed: int, replay=None) -> int:
             d = meshes.make_device(rng, holes=di % 3, terminals=[0, 2, 3, 4][di % 4], max_edge_length=1.5,
                                    probe_points=(di % 2 == 0), shape=["box", "ellipse", "union"][di % 3], **lay)
             d.layer.z0 = [0.0, 0.3, -0.2][di % 3]
+            if di % 2 == 1:
+                # feature pair: a device that HAS a mesh and is then moved in place (the mesh moves with it); what is stored must
+                # still be the mesh one recomputes from its triangulation
+                d.translate(dx=[1.3, -0.4, 7.0][di % 3], dy=[-0.8, 2.1, 0.0][di % 3], inplace=True)
             if di % 4 == 1:
                 # names are free-form strings: spaces, unicode, dots
                 d.name = "my device é.v2"
